@@ -358,3 +358,21 @@ func TableParseTree(lx *Lox, names []string, w []int) *LNode {
 	}
 	panic("lox table parse did not terminate")
 }
+
+// ParseUnit runs only lox's parser on one file.
+func ParseUnit(text string) (u *ast.Unit, diag string, pan any) {
+	defer func() {
+		if r := recover(); r != nil {
+			pan = r
+		}
+	}()
+	fset := gotoken.NewFileSet()
+	var sb strings.Builder
+	errs := errlogger.New(fset, &sb)
+	file := fset.AddFile("g.lox", -1, len(text))
+	u = parser.Parse(file, []byte(text), errs)
+	if errs.HasError() {
+		return nil, sb.String(), nil
+	}
+	return u, sb.String(), nil
+}
